@@ -24,7 +24,10 @@ def run(tier, rep):
     d = vlib.scratch('c09')
     runs = []
     if tier == 'quick':
-        runs.append(one(exe, 7, '1,7,21,0', False, d, 'a'))
+        import concurrent.futures as cf
+        with cf.ThreadPoolExecutor(2) as ex:
+            fs = [ex.submit(one, exe, 7, '1,7,21,0', False, d, 'a'), ex.submit(one, exe, 6, '4,1', False, d, 'w')]
+            runs = [f.result() for f in fs]
     else:
         import concurrent.futures as cf
         with cf.ThreadPoolExecutor(3) as ex:
@@ -44,9 +47,9 @@ def run(tier, rep):
         'exhaustive': True, 'operations': runs[0]['ops'], 'distinct_outcomes': max(r['outcomes'] for r in runs),
         'samples': samples or ['none'],
         'rule': 'breadth-first search over all sequences of the %d-operation alphabet (setters with valid/invalid arguments, add_operation(MDL|null), initialize, '
-                'shoot, reset, destroy+new) up to the stated depth; state = history replayed on a fresh decay0_generator, merged by the state of the '
+                'shoot, reset, destroy+new) up to the stated depth, plus three auxiliary entry points (mode by valid / unknown label, set_decay_version) applied as leaves after every transition; a second run uses the window-capable mode 4 so that toallevents != 1 before reset; state = history replayed on a fresh decay0_generator, merged by the state of the '
                 'reference machine plus a sticky mark of the last refused operation (for initialize: with the state it was refused in); every transition '
-                'checks exception<->reference, all getters, defaults after reset, and the probe shot against a fresh instance configured alike' % runs[0]['ops'],
+                'checks exception<->reference, all getters, defaults after reset (including every field of get_bb_params()), and the probe shot against a fresh instance configured alike' % runs[0]['ops'],
     })
     rep.assumptions += ['the reference machine follows the literal statement of the property (reset from any state yields a new-like object)',
                         'validity of a configuration = reference GENBBsub rules (transpiled, kernel stubbed) + README rules for the gA modes',
